@@ -116,6 +116,7 @@ type Result struct {
 	Outcomes       map[string]int `json:"-"`
 	DistinctOut    int            `json:"distinct_outcomes"`
 	Pruned         int            `json:"pruned_executions,omitempty"`
+	Saturated      bool           `json:"saturated,omitempty"`
 	Violations     []Violation    `json:"violations,omitempty"`
 	Samples        []any          `json:"samples,omitempty"`
 	WallS          float64        `json:"wall_s"`
@@ -517,6 +518,7 @@ func BFS(o Options, depth int, ops []string, apply func(r *Run, hist []string) S
 		if len(frontier) == 0 {
 			if !stop {
 				res.DepthCompleted = depth
+				res.Saturated = true // fixpoint: every reachable canonical state was expanded
 			}
 			break
 		}
